@@ -67,6 +67,30 @@ func gStatus(rt *rapid.T, label string) int {
 	}
 }
 
+// gFinalStatus: every final status 200-699, the ones that mean something
+// special to SIP elements drawn more often (2xx, redirects, challenges 401 /
+// 407, 408, 481, 487, 491, 5xx, 6xx).
+func gFinalStatus(rt *rapid.T, label string) int {
+	if rapid.IntRange(0, 2).Draw(rt, label+".kind") == 0 {
+		return rapid.IntRange(200, 699).Draw(rt, label)
+	}
+	return rapid.SampledFrom([]int{200, 200, 202, 204, 300, 301, 302, 305, 380, 400, 401, 403, 404, 405, 407, 408, 410, 415, 420, 422, 423, 480, 481, 482, 483, 484, 486, 487, 488, 489, 491, 493, 500, 501, 502, 503, 504, 513, 600, 603, 604, 606, 699}).Draw(rt, label)
+}
+
+// gTxStatus: the status of one more response within a transaction -
+// provisional (100, 18x, any 1xx) or final (gFinalStatus).
+func gTxStatus(rt *rapid.T, label string) int {
+	switch rapid.IntRange(0, 5).Draw(rt, label+".class") {
+	case 0:
+		return 100
+	case 1:
+		return rapid.SampledFrom([]int{180, 181, 182, 183, 199}).Draw(rt, label+".1xx")
+	case 2:
+		return rapid.IntRange(101, 199).Draw(rt, label+".1xx")
+	}
+	return gFinalStatus(rt, label)
+}
+
 // gParamList: header/URI/Via parameters. valAlpha is the value alphabet.
 func gParamList(rt *rapid.T, label string, max int, valAlpha string, reserved map[string]bool) []AParam {
 	n := rapid.IntRange(0, max).Draw(rt, label+".n")
